@@ -179,7 +179,63 @@ theorem part_ok_iff_finished (i t n : Nat) (hi : i < t) (ht64 : t < U64) (hnt : 
     rw [hiff.2 hfit] at hnf
     cases hnf
 
-/-! ## 3. non-vacuity -/
+/-! ## 4. end to end over the stream machine -/
+
+/-- `multi_ok_over_stream_model`.  `CompressMulti` with EVERY job run over the stream machine on a
+fresh encoder — the situation of ALL jobs at quality 0/1 (the dictionary is not used there; the
+qualities at which the cut-stream defect D19 lived), of single-threaded calls, and of inputs shorter
+than the thread count — any spawner, any payload encoders `os i`, any capacity: if the call returns
+`Ok(k)` then for every job its FINISH call returned `true` with `is_finished()`, nothing pending
+and the whole piece consumed, the job's bytes are ALL bytes that call produced, and `output[..k]`
+is the reference splice of these complete streams, `k ≤` capacity, input handed back.
+(C02 `multi_ok_sound` composed with `part_ok_iff_finished`; no oracle hypothesis.) -/
+theorem multi_ok_over_stream_model (sp : Spawner) (t n cap : Nat) (os : Nat → Oracle) (fuel : Nat) (p : Params)
+    (pieces : Nat → Bytes) (ht64 : t < U64) (hnt : n * t < U64)
+    (hlen : ∀ i, i < t → (pieces i).length = bnd t n (i + 1) - bnd t n i)
+    (r : MultiRet) (k : Nat)
+    (h : compressMulti sp t (fun i => streamJob (os i) fuel p i t n (pieces i)) cap = ok r)
+    (hk : r.result = .ok k) :
+    ∃ bs : List (List Nat), bs.length = t ∧ spliceAll cap bs = some r.out ∧ k = r.out.length ∧
+      r.returned = true ∧
+      ∀ i b, bs[i]? = some b → ∃ s' io' rr,
+        compressStream (os i) fuel { St.new with params := jobParams p i } 2 (pieces i)
+          (maxCompressedSize (pieces i).length) = .ok (s', io', rr) ∧
+        rr = true ∧ isFinished s' = true ∧ s'.pending = [] ∧ io'.availIn = 0 ∧ b = io'.out := by
+  obtain ⟨bs, hl, hj, hs, hkk, hret⟩ := BV.Props.C02.multi_ok_sound sp t (fun i => streamJob (os i) fuel p i t n (pieces i)) cap r k h hk
+  refine ⟨bs, hl, hs, hkk, hret, ?_⟩
+  intro i b hib
+  have hit : i < t := by
+    rw [← hl]
+    exact (List.getElem?_eq_some_iff.1 hib).1
+  have hjob := hj i b hib
+  have hw : (pieces i).length < two64 := by
+    have h1 := hlen i hit
+    have h2 : bnd t n (i + 1) ≤ n := bnd_le t n (i + 1) (by omega) (by omega)
+    have h3 : n ≤ n * t := Nat.le_mul_of_pos_right n (by omega)
+    have h4 : U64 = two64 := by simp [U64, two64]
+    omega
+  unfold streamJob at hjob
+  cases hc : compressStream (os i) fuel { St.new with params := jobParams p i } 2 (pieces i)
+      (maxCompressedSize (pieces i).length) with
+  | panic => rw [hc] at hjob; cases hjob
+  | fuel => rw [hc] at hjob; cases hjob
+  | ok v =>
+    obtain ⟨s', io', rr⟩ := v
+    rw [hc] at hjob
+    simp only at hjob
+    have hcs : CallState ({ St.new with params := jobParams p i } : St) (pieces i).length :=
+      Or.inl ⟨⟨_, rfl⟩, hw⟩
+    obtain ⟨hfin, hnf⟩ := part_ok_iff_finished i t n hit ht64 hnt (hlen i hit) hcs hc []
+    obtain ⟨hrr, _, _, _, _⟩ := finish_call_contract' hcs hc
+    cases hf : isFinished s' with
+    | false => rw [hnf hf] at hjob; cases hjob
+    | true =>
+      obtain ⟨h1, h2, h3⟩ := hfin hf
+      rw [h1] at hjob
+      injection hjob with hjob
+      exact ⟨s', io', rr, rfl, hrr, hf, h2, h3, hjob.symm⟩
+
+/-! ## 5. non-vacuity -/
 
 /-- a fresh encoder is a `CallState`; so is an initialised one -/
 example : CallState St.new 5 := Or.inl ⟨⟨{}, rfl⟩, by decide⟩
